@@ -101,13 +101,38 @@ func passes(quick bool) []passDef {
 		alpha:    []string{"a", "b", "A", "B"},
 		maxLen:   8,
 	}
+	// letter literals of one and two bytes in lower, upper and mixed case
+	// (b, B, aB, Ab ...) against lines that contain BOTH cases of every letter
+	// occurring in a literal, plus a neutral non-letter that is also a
+	// delimiter: a per-literal shortcut of the ignore-case search (decided by
+	// length, by "folding leaves it alone", by the case the literal was written
+	// in) loses the match at the other-case occurrence or splits at a later one
+	letters := passDef{
+		tag:      "letters",
+		prefixes: []string{"", "b", "B", "aB", "Ab"},
+		untils:   []string{"b", "B", "a", "A", "aB", "Ab", "-"},
+		alpha:    []string{"a", "A", "b", "B", "-"},
+		maxLen:   7,
+	}
+	// the ends of the folded range and the bytes 0x20 away from non-letters:
+	// z/Z are folded, '@' (0x40) and '`' (0x60), '[' (0x5B) and '{' (0x7B) are
+	// distinct bytes although they differ by the same bit as A/a and Z/z
+	foldEdge := passDef{
+		tag:      "fold-edge",
+		prefixes: []string{"", "Z", "@", "{"},
+		untils:   []string{"z", "Z", "@", "`", "[", "{"},
+		alpha:    []string{"z", "Z", "@", "`", "[", "{"},
+		maxLen:   6,
+	}
 	if quick {
 		main.maxLen = 5
 		percent.maxLen = 5
 		bytesPass.maxLen = 4
 		overlap.maxLen = 6
+		letters.maxLen = 5
+		foldEdge.maxLen = 4
 	}
-	return []passDef{main, percent, bytesPass, overlap}
+	return []passDef{main, percent, bytesPass, overlap, letters, foldEdge}
 }
 
 func forEachPattern(p *passDef, f func(ps patSpec) bool) {
@@ -718,7 +743,7 @@ func main() {
 		Rule: func(prop, tier string) string {
 			ps := passes(tier != "thorough")
 			var sb strings.Builder
-			sb.WriteString("every dissect pattern = leading literal + 0..2 tokens (named %{x}/%{y}, %{}, %{?n}) each followed by a trailing literal (the last one optionally none), compiled case-sensitive and ignore-case with the real CompileEx, x every line (all strings of up to L symbols over the pass alphabet), in four passes: ")
+			sb.WriteString("every dissect pattern = leading literal + 0..2 tokens (named %{x}/%{y}, %{}, %{?n}) each followed by a trailing literal (the last one optionally none), compiled case-sensitive and ignore-case with the real CompileEx, x every line (all strings of up to L symbols over the pass alphabet), in six passes: ")
 			for i, p := range ps {
 				if i > 0 {
 					sb.WriteString("; ")
